@@ -48,6 +48,7 @@ def groups(tier):
     gs += c08.asm_groups(props=("C09",), prefix="c09")      # the backend the default build selects on this host
     for cfg in ("C64", "C32", "DX"):
         gs += [g for g in common.xof_l2_groups("c09", ["C09"], cfg=cfg) if ("_init." in g.name + "." or "init_fixed.tables" in g.name) and "reinit" not in g.name]
+    gs += common.kmac_table_groups("c09", ["C09"])
     for ms in (2, 3, 4):
         gs += common.masked_word_groups("c09", ["C09"], max_shares=ms)
     gs += common.masked_key_groups("c09", ["C09"])
